@@ -700,7 +700,7 @@ def corpus_cases():
 def run(ctx):
     res = C.Result("C15")
     seed, tier = ctx["seed"], ctx["tier"]
-    n = C.Budget(tier, 60, 2500).n
+    n = C.Budget(tier, 1000, 30000).n
     if ctx["widened"]:
         n *= 3
     res.rule = ("simulated instance (1-2 services, listener browser + handler browser, optional lookup) fed 5-60 datagrams at gaps 0 ms..11 s from "
